@@ -94,8 +94,41 @@ def path_term(ex, st, v):
     return text_term(ex, st, v)
 
 
-def io_result(ex, ok, okval=UNIT):
-    return VEnum("Result", simp(z3.If(ok, I(0), I(1))), {0: [okval], 1: [VOpaque("io::Error")]})
+ERRKIND = {"NotFound": 1, "UnexpectedEof": 2, "InvalidData": 3, "PermissionDenied": 4, "AlreadyExists": 5, "Interrupted": 6, "BrokenPipe": 7, "Other": 8}
+
+
+def io_result(ex, ok, okval=UNIT, kind=None):
+    """io::Result with an error of ARBITRARY kind (a fresh integer code; `Error::kind()` compares it with the std constants)"""
+    if kind is None:
+        kind = ex.fresh_int("errkind", lo=1, hi=64)
+    return VEnum("Result", simp(z3.If(ok, I(0), I(1))), {0: [okval], 1: [VStruct("IoError", [VInt(kind, "u8")])]})
+
+
+def _err_kind(ex, st, args, dest_ty, func, where):
+    e = _deep(ex, st, args[0])
+    if isinstance(e, VStruct) and e.name == "IoError":
+        return VStruct("ErrorKind", [e.f[0]])
+    if isinstance(e, VOpaque) and "UnexpectedEof" in str(e.what):
+        return VStruct("ErrorKind", [VInt(I(ERRKIND["UnexpectedEof"]), "u8")])
+    return VStruct("ErrorKind", [VInt(ex.fresh_int("errkind", lo=1, hi=64), "u8")])
+
+
+def _kind_code(ex, st, v):
+    v = _deep(ex, st, v)
+    if isinstance(v, VStruct) and v.name == "ErrorKind":
+        return v.f[0].t
+    if isinstance(v, VEnum) and v.name == "ErrorKind":
+        return v.discr
+    txt = str(getattr(v, "what", v))
+    for k, c in ERRKIND.items():
+        if k in txt:
+            return I(c)
+    raise Unsupported("io::ErrorKind value %r" % (v,))
+
+
+def _kind_eq(ex, st, args, dest_ty, func, where):
+    t = _kind_code(ex, st, args[0]) == _kind_code(ex, st, args[1])
+    return VBool(simp(z3.Not(t) if func.endswith("::ne") else t))
 
 
 # ----------------------------------------------------------------- path algebra
@@ -129,6 +162,13 @@ def _file_name(ex, st, args, dest_ty, func, where):
 
 def _with_file_name(ex, st, args, dest_ty, func, where):
     return pathv(WITHNAME(path_term(ex, st, args[0]), path_term(ex, st, args[1])))
+
+
+WITHEXT = z3.Function("path_with_extension", z3.IntSort(), z3.IntSort(), z3.IntSort())
+
+
+def _with_extension(ex, st, args, dest_ty, func, where):
+    return pathv(WITHEXT(path_term(ex, st, args[0]), text_term(ex, st, args[1])))
 
 
 def _os_push(ex, st, args, dest_ty, func, where):
@@ -192,8 +232,9 @@ def _str_into_string(ex, st, args, dest_ty, func, where):
 def _fs_unit(call):
     def h(ex, st, args, dest_ty, func, where):
         ok = ex.fresh_bool(call + "_ok")
-        record(ex, st, call, path=path_term(ex, st, args[0]), ok=ok)
-        return io_result(ex, ok)
+        kind = ex.fresh_int("errkind", lo=1, hi=64)
+        record(ex, st, call, path=path_term(ex, st, args[0]), ok=ok, errkind=kind)
+        return io_result(ex, ok, kind=kind)
     return h
 
 
@@ -340,12 +381,15 @@ def install(ex):
     A(r"^Path::parent$", _path_parent, "Path::parent (uninterpreted)")
     A(r"^Path::file_name$", _file_name, "Path::file_name (uninterpreted)")
     A(r"^Path::with_file_name::<", _with_file_name, "Path::with_file_name (uninterpreted)")
+    A(r"^Path::with_extension::<", _with_extension, "Path::with_extension (uninterpreted: REPLACES the extension, it is not a suffix)")
     A(r"^(std::ffi::)?OsString::push::<", _os_push, "OsString::push (uninterpreted suffix constructor)")
     A(r"^core::fmt::rt::Argument::<'_>::new_\w+::<", _fmt_arg, "fmt::Argument (names its value)")
     A(r"^Arguments::<'_>::new::<|^Arguments::<'_>::new_const::<|^Arguments::<'_>::from_str", _fmt_arguments, "fmt::Arguments (template id + argument names)")
     A(r"^(std::fmt::|alloc::fmt::)?format$", _fmt_format, "format! (uninterpreted function of template and arguments)")
     A(r"^must_use::<", _must_use, "must_use")
     A(r"^<&str as Into<(std::string::)?String>>::into$|^<str as ToString>::to_string$|^<(std::string::)?String as From<&str>>::from$", _str_into_string, "&str -> String")
+    A(r"^std::io::Error::kind$", _err_kind, "io::Error::kind (the error's arbitrary kind code)")
+    A(r"^<std::io::ErrorKind as PartialEq>::(eq|ne)$", _kind_eq, "ErrorKind == / != (kind codes)")
     A(r"^std::fs::create_dir_all::<", _fs_unit("create_dir_all"), "fs::create_dir_all (recorded)")
     A(r"^std::fs::remove_file::<", _fs_unit("remove_file"), "fs::remove_file (recorded)")
     A(r"^std::fs::rename::<", _fs_rename, "fs::rename (recorded)")
